@@ -373,6 +373,7 @@ class Emitter:
         emit_layout(self)
         emit_serial(self)
         emit_print_facts(self)
+        emit_init_facts(self)
         emit_fmt_triples(self)
         emit_model_overloads(self)
         self.n_inverse_pairs = emit_inverse_pairs(self)
@@ -927,6 +928,31 @@ def emit_print_facts(em):
          'def printLeaves : List (Option (Bool × Int)) := [%s]' % ', '.join(leaves), '',
          'end PhQVerif.Generated']
     em.write('PrintFacts.lean', '\n'.join(L) + '\n')
+
+
+def emit_init_facts(em):
+    """C19: how each namespace-scope table is declared (clang AST), as Lean data."""
+    path = os.path.join(em.cache, 'init_facts.json')
+    if not os.path.exists(path):
+        import init_facts
+        inc = os.path.dirname(os.path.dirname(os.path.realpath(os.path.join(em.cache, 'symincl', 'PhQ', 'Base.hpp'))))
+        json.dump(init_facts.collect(inc, em.cache), open(path, 'w'), indent=1)
+    decls = json.load(open(path))
+    kinds = {'VarTemplateDecl': '.primary', 'VarTemplateSpecializationDecl': '.explicitSpec',
+             'VarTemplatePartialSpecializationDecl': '.partialSpec', 'VarDecl': '.plain'}
+    rows = []
+    for d in decls:
+        rows.append('{ name := %s, arg := %s, decl := %s, isInline := %s, isConstexpr := %s, file := %s, line := %d }' % (
+            lean_str(d['name']), lean_str(d['arg'] or ''), kinds[d['decl']], str(d['inline']).lower(),
+            str(d['constexpr']).lower(), lean_str(d['file'] or ''), d['line'] or 0))
+    L = ['-- GENERATED by emit_lean.py -- do not edit.', 'import PhQVerif.Core.Init',
+         'set_option maxRecDepth 100000', 'namespace PhQVerif.Generated', 'open PhQVerif.Init', '']
+    chunks = [rows[k:k + 60] for k in range(0, len(rows), 60)] or [[]]
+    for ci, ch in enumerate(chunks):
+        L.append('def tableDecls_%d : List TableDecl := [\n  %s]' % (ci, ',\n  '.join(ch)))
+    L.append('def tableDecls : List TableDecl :=\n  %s' % ' ++ '.join('tableDecls_%d' % ci for ci in range(len(chunks))))
+    L.append('end PhQVerif.Generated')
+    em.write('InitFacts.lean', '\n'.join(L) + '\n')
 
 
 def emit_serial(em):
